@@ -155,6 +155,9 @@ AlphaC01 == {Map("inc"), Map("tag"), Map("var"), Filter("even"), Filter("none"),
              Slice(1, 3, 1), Slice(0, None, 2), LagK(1), LastK(2), Count, RunIf("even", "inc"),
              Reverse, End, Sum, Last, SplitSt(<<Map("inc"), Sum>>, 2),
              Bad("int"), Bad("str"), Bad("obj"), Bad("runnone")}
+\* callables that yield None, followed by elements that count, drop, delay or store values
+AlphaNul == {Map("nul"), Map("inc"), Filter("even"), Slice(1, 3, 1), LagK(1), LastK(2), Count,
+             RunIf("even", "nul"), Reverse, Last, SplitSt(<<Map("nul"), Filter("even")>>, 2)}
 AlphaC01Small == {Map("inc"), Map("tag"), Filter("even"), Slice(1, 3, 1), LagK(1), Count,
                   RunIf("even", "inc"), Reverse, Sum, SplitSt(<<Map("inc"), Sum>>, 2), Bad("int")}
 AlphaC02 == {Map("inc"), Map("id"), Map("var"), Map("upd"), Map("mkfn"), Filter("even"), Filter("lt2"),
